@@ -117,6 +117,46 @@ def h_ports(ctx, ninit, nnotes):
 STAT_KINDS = {'flow': 1, 'table': 3, 'port': 4, 'queue': 5, 'desc': 0, 'aggregate': 2}
 
 
+def h_ports_handshake(ctx, nearly, nlate):
+  """port-status notifications that arrive inside the handshake window (after the features reply, before the barrier reply) are replayed when
+  the connection comes up: the port view and the PortStatus events must reflect them in arrival order, followed by the later ones"""
+  from props import C09
+  core, of01, of, nexus, log = C09.setup(ctx)
+  addrs = ctx.pox('pox.lib.addresses')
+  sock = env.FakeSocket(eof=False)
+  con = of01.Connection(sock)
+  C09.feed(con, sock, of.ofp_hello())
+  fr = of.ofp_features_reply(datapath_id=9)
+  p0 = ctx.int('no_init', 0, 0xffff)
+  fr.ports.append(of.ofp_phy_port(port_no=p0, name=NAMES[0], hw_addr=addrs.EthAddr(b'\x02\x00\x00\x00\x00\x01')))
+  C09.feed(con, sock, fr)
+  ref = [(p0, NAMES[0])]
+  notes = []
+  def note(j):
+    reason = ctx.int('reason%d' % j, 0, 2); no = ctx.int('no_n%d' % j, 0, 0xffff); name = NAMES[1 + j]
+    ps = of.ofp_port_status(reason=reason, desc=of.ofp_phy_port(port_no=no, name=name, hw_addr=addrs.EthAddr(bytes([2, 0, 0, 0, 1, j]))))
+    C09.feed(con, sock, ps)
+    notes.append(no)
+    hit = [k for k, r in enumerate(ref) if bool(r[0] == no)]
+    if bool(reason == 1):
+      for k in reversed(hit): del ref[k]
+    elif hit: ref[hit[0]] = (no, name)
+    else: ref.append((no, name))
+  for j in range(nearly): note(j)
+  ctx.check('nothing announced before the barrier reply', not any(x[0] in ('up', 'port') for x in log))
+  bx = C09.barrier_xid(of, of01, sock)
+  C09.feed(con, sock, of.ofp_barrier_reply(xid=bx))
+  ctx.check('connection came up', any(x[0] == 'up' for x in log))
+  for j in range(nearly, nearly + nlate): note(j)
+  got = [x[2] for x in log if x[0] == 'port']
+  ctx.check('PortStatus events: one per notification, in arrival order', len(got) == len(notes) and all(bool(a == b) for a, b in zip(got, notes)))
+  ports = con.ports
+  ctx.check('port view size', len(ports) == len(ref))
+  for no, name in ref:
+    ctx.check('port view: number present with the latest description', (no in ports) and ports[no].name == name)
+  ctx.witness('done')
+
+
 def h_stats(ctx, kinds, parts, order, ctag=''):
   """kinds: (k1, k2) stats types of the two requests; parts: (n1, n2) number of parts; order: interleaving string over
   '1','2' (next part of request 1/2), 'b' (barrier reply), 'e' (echo request)"""
@@ -207,6 +247,8 @@ def obligations(tier):
   return [
     Obligation('O1_ports', h_ports, pc, witnesses=('done', 'add', 'replace', 'delete-hit', 'delete-miss'), max_decisions=20000,
                desc='PortCollection view == reference map after features reply + port-status notifications'),
+    Obligation('O4_ports_handshake', h_ports_handshake, [dict(nearly=a, nlate=b) for a, b in ((1, 0), (2, 0), (2, 1), (3, 0) if thorough else (1, 1))], witnesses=('done',),
+               max_decisions=20000, desc='port-status notifications inside the handshake window are applied (and announced) in arrival order'),
     Obligation('O2_stats', h_stats, st, witnesses=('done',), max_decisions=20000,
                desc='multipart stats reassembly: one event per request, after the final part, own entries in order'),
     Obligation('O3_stats_interleaved', h_stats, [dict(kinds=('flow', 'port'), parts=(2, 1), order='121', ctag='[interleaved] '),
